@@ -437,27 +437,38 @@ var families = []fam{
 				return err
 			}
 			var us []User
-			return tx.Joins("Company").Preload("Company.Offices").Find(&us).Error
+			err := tx.Joins("Company").Preload("Company.Offices").Find(&us).Error
+			D(txBlock(find("SQuery", joinedOffices(u.Company != nil)), find("SQuery", joinedOffices(anyCompany(us)))))
+			return err
 		})
 	}, path: func(t string) []string { return append([]string{litBegin}, joinedNested(t)...) }},
 	{name: "assoc_append", run: func(h *gorm.DB) error {
+		D(amDesc("Langs", "append", false))
 		return h.Model(&User{ID: 1}).Association("Langs").Append(&Lang{Name: name("al")})
 	}, path: always(litAssocSave0, litAssocSave1)},
 	{name: "assoc_append_many", run: func(h *gorm.DB) error {
+		D(amDesc("Pets", "append", false))
 		return h.Model(&User{ID: 2}).Association("Pets").Append(&Pet{Name: name("ap")}, &Pet{Name: name("ap")})
 	}, path: always(litAssocSave0, litAssocSave1)},
 	{name: "assoc_replace", run: func(h *gorm.DB) error {
+		D(amDesc("Langs", "replace", false))
 		return h.Model(&User{ID: 1}).Association("Langs").Replace(&Lang{Name: name("rl")})
 	}, path: always(litAssocSave0, litAssocSave1)},
 	{name: "assoc_replace_belongs", run: func(h *gorm.DB) error {
+		D(amDesc("Company", "replace", false))
 		return h.Model(&User{ID: 2}).Association("Company").Replace(&Company{Name: name("rc")})
 	}, path: always(litAssocSave0, litAssocSave1)},
 	{name: "assoc_delete", run: func(h *gorm.DB) error {
+		D(amDesc("Langs", "delete", false))
 		return h.Model(&User{ID: 1}).Association("Langs").Delete(&Lang{ID: 1})
 	}, path: always(litAssocDel)},
-	{name: "assoc_clear", run: func(h *gorm.DB) error { return h.Model(&User{ID: 2}).Association("Pets").Clear() },
+	{name: "assoc_clear", run: func(h *gorm.DB) error {
+		D(amDesc("Pets", "clear", false))
+		return h.Model(&User{ID: 2}).Association("Pets").Clear()
+	},
 		path: always(litAssocSave0, litAssocSave1)},
 	{name: "assoc_count", run: func(h *gorm.DB) error {
+		D(amDesc("Langs", "count", false))
 		as := h.Model(&User{ID: 1}).Association("Langs")
 		if n := as.Count(); n < 0 {
 			return errors.New("negative count")
@@ -466,14 +477,20 @@ var families = []fam{
 	}, path: always(litAssocCond)},
 	{name: "assoc_find", run: func(h *gorm.DB) error {
 		var ps []Pet
+		D(assocMode(amRead(false, find("SQuery"))))
 		return h.Model(&User{ID: 1}).Association("Pets").Find(&ps)
 	}, path: always(litAssocCond)},
 	{name: "find_in_batches", run: func(h *gorm.DB) error {
 		var us []User
-		return h.FindInBatches(&us, 1, func(tx *gorm.DB, n int) error {
+		nb := 0
+		err := h.FindInBatches(&us, 1, func(tx *gorm.DB, n int) error {
+			nb++
 			var c int64
 			return tx.Model(&Pet{}).Count(&c).Error // a statement issued from the batch callback's handle
 		}).Error
+		// batches of one row: nb batches that found a row (each runs the callback's Count), then an empty one
+		D(fibDesc(false, nb, true, l(find("SQuery"))))
+		return err
 	}, path: func(t string) []string {
 		if t == "pets" {
 			return []string{litFIB0, litFIB1, litFIB2}
@@ -492,6 +509,8 @@ var families = []fam{
 		if err == nil && n < 3 {
 			return fmt.Errorf("only %d batches", n)
 		}
+		// Limit 5 in batches of 2 over at least 6 users: 2, 2, 1 rows, the limit ends the loop
+		D(fibDesc(true, n, false, l(find("SQuery"))))
 		return err
 	}, pathQ: fibPath},
 	{name: "find_in_batches_offset_limit", run: func(h *gorm.DB) error {
@@ -501,12 +520,16 @@ var families = []fam{
 		if err == nil && n < 2 {
 			return fmt.Errorf("only %d batches", n)
 		}
+		D(fibDesc(true, n, false, nil))
 		return err
 	}, pathQ: fibPath},
 	{name: "find_in_batches_limit_in_tx", run: func(h *gorm.DB) error {
 		return h.Transaction(func(tx *gorm.DB) error {
 			var us []User
-			return tx.Limit(6).FindInBatches(&us, 2, func(btx *gorm.DB, b int) error { return nil }).Error
+			nb := 0
+			err := tx.Limit(6).FindInBatches(&us, 2, func(btx *gorm.DB, b int) error { nb++; return nil }).Error
+			D(txBlock(fibDesc(true, nb, false, nil)))
+			return err
 		})
 	}, pathQ: func(t, q string) []string { return append([]string{litBegin}, fibPath(t, q)...) }},
 	// a side session with another context derived INSIDE a transaction block from the block's handle
@@ -519,7 +542,9 @@ var families = []fam{
 				return err
 			}
 			var us []User
-			return tx.Preload("Pets").Find(&us).Error
+			err := tx.Preload("Pets").Find(&us).Error
+			D(txBlock(wrN("SQuery", nil, nil), find("SQuery", relPets(loadedOf(us)))))
+			return err
 		})
 	}, path: func(t string) []string {
 		if t == "users" {
@@ -765,6 +790,7 @@ func init() {
 			if err := h.Create(u).Error; err != nil {
 				return err
 			}
+			D(createUserTree(wr), wr("SExec", l(delAssoc(wrN("SExec", nil, nil)), delAssoc(wrN("SExec", nil, nil)), delAssoc(wrN("SExec", nil, nil))), nil))
 			return h.Select(clause.Associations).Delete(u).Error
 		}, path: func(t string) []string {
 			if t == "users" {
